@@ -103,7 +103,7 @@ def nextOrderLoop (m : SeqMod) (seq : Int) : Nat → Int → Bool → Option (In
       else (ord1, rg)
     if m.xo r.1 ≥ m.pat then nextOrderLoop m seq fuel r.1 r.2 else some r
 
-/-- fuel: two passes over the order list always suffice (see `Xmp.Seq.nextOrderLoop_terminates`). -/
+/-- fuel: `len + 1 ≤ 257` iterations always suffice (`Xmp.Seq.nextOrderLoop_terminates`). -/
 def orderFuel : Nat := 2 * 256 + 4
 
 /-- `next_order` -/
@@ -405,5 +405,35 @@ def wfB (m : SeqMod) : Bool :=
   allBelow m.len.toNat (fun o => decide (m.xo o ≥ m.pat) ||
     (decide (1 ≤ geti m.oBpm o) && decide (0 ≤ geti m.oSpeed o) && decide (geti m.oSpeed o ≤ 255) && st26ok (geti m.oSt26 o))) &&
   (decide (skipInvalid m 257 0 ≥ m.len) || decide (1 ≤ geti m.oSpeed (skipInvalid m 257 0)))
+
+/-! ## Order-list facts that bound the order-skipping loop of `next_order`
+
+`libxmp_scan_sequences` only keeps a sequence whose scan played at least one row (`any_valid`,
+src/scan.c): walking forward from its entry point the scan met an order holding a pattern before
+the end of the list / an 0xff end marker, or it wrapped to a restart position that holds a pattern
+and belongs to the sequence.  `ordWfB` states exactly that, in the form `next_order` needs it;
+the driver evaluates it on every module the harness plays and the harness evaluates the same
+clause in C on the live module. -/
+
+/-- walking forward from order `o`: is an order holding a pattern met before the end of the list
+or (marker modules) an 0xff end marker? -/
+def reachFrom (m : SeqMod) : Nat → Int → Bool
+  | 0, _ => false
+  | fuel + 1, o =>
+    if o ≥ m.len then false
+    else if m.marker = true ∧ m.xo o = 0xff then false
+    else if m.xo o < m.pat then true
+    else reachFrom m fuel (o + 1)
+
+/-- `next_order` wraps sequence `s` to the restart position, and that position holds a pattern -/
+def rstOkB (m : SeqMod) (s : Int) : Bool :=
+  decide (m.rst ≤ m.len) && decide (m.xo m.rst < m.pat) && decide (geti m.seqCtl m.rst = s)
+
+/-- every sequence can reach a pattern: through the restart position, at its entry point, or by
+walking forward from the entry point (`next_order` does not test the entry point itself for the
+end marker when it wraps onto it) -/
+def ordWfB (m : SeqMod) : Bool :=
+  allBelow m.numSeq.toNat fun s =>
+    rstOkB m s || decide (m.xo (m.entryOf s) < m.pat) || reachFrom m 256 (m.entryOf s + 1)
 
 end Xmp.Seq
